@@ -425,6 +425,37 @@ def unit_moduli(i):
     return [v_eq(s0(i['dt']), 1.0)] + [v_eq(x, 1.0) for x in flat(i['G'])] + [v_eq(x, 1.0) for x in flat(i['tau'])]
 
 
+class UnexpectedCall(Exception):
+    pass
+
+
+def _raiser(what):
+    def r(*a, **k):
+        raise UnexpectedCall(what)
+    return r
+
+
+@contextlib.contextmanager
+def no_tensor_functions(M, expm=True):
+    """the Ee-level encodings replace _compute_elastic_logarithmic_strain as a whole; any OTHER route of the traced function
+    into the matrix log / expm (a new call path) is not covered by that stub and is reported instead of being traced
+    through the eigen solver / Pade expm (decided on the real kinematics in O9)"""
+    TM = _mods()[2]
+    kw = dict(linalg=types.SimpleNamespace(expm=_raiser('jax.scipy.linalg.expm'))) if expm else {}
+    with patched(TM, log_sqrt_symm=_raiser('TensorMath.log_sqrt_symm'), log_symm=_raiser('TensorMath.log_symm')), patched(M.mod, **kw):
+        yield
+
+
+def guarded_case(h, tag, thunk):
+    try:
+        return thunk()
+    except UnexpectedCall as e:
+        h.fact('%s.no_tensor_function_outside_log_strain_stub' % tag, False,
+               'the traced function calls %s outside _compute_elastic_logarithmic_strain: the Ee-level encoding of this obligation '
+               'does not apply to it; see O9 (real kinematics, objectivity)' % e)
+        return None
+
+
 # ------------------------------------------------------------------------------------------ shared cases
 def branch_case(h, M, n, label, validate=2):
     """per branch n: the real increment, dissipated energy of the increment, stored energy before/after"""
@@ -446,7 +477,7 @@ def _qoi_case(h, M):
     nb = M.nb
 
     def f(state, dt, K, Ge, G, tau):
-        with patched(M.mod, _compute_elastic_logarithmic_strain=log_stub_from_state):
+        with patched(M.mod, _compute_elastic_logarithmic_strain=log_stub_from_state), no_tensor_functions(M):
             mat = M.material(K, Ge, G, tau)
             D = mat.compute_material_qoi(jnp.zeros((3, 3)), state, dt)
         p = M.props(K, Ge, G, tau)
@@ -483,7 +514,9 @@ def o1(h):
     h.bounds(BOUNDS, 'state: every real 9n-vector (Ee_n read from block n by the stub)')
     for M in Ms:
         nb = M.nb
-        c = _qoi_case(h, M)
+        c = guarded_case(h, 'qoi[%s]' % M.kind, lambda: _qoi_case(h, M))
+        if c is None:
+            continue
 
         def spec_br(i, o, nb=nb):
             t = _dis_terms(i, o, nb)
@@ -516,8 +549,9 @@ def o1m(h):
     M = Model('multi')
     _enc(h, M)
     h.bounds(BOUNDS)
-    c = _qoi_case(h, M)
-    c.prove('qoi[multi].total', _spec_total_dissipation(3, '.monolithic'), denoms=False, cap=200)
+    c = guarded_case(h, 'qoi[multi]', lambda: _qoi_case(h, M))
+    if c is not None:
+        c.prove('qoi[multi].total', _spec_total_dissipation(3, '.monolithic'), denoms=False, cap=200)
 
 
 # ------------------------------------------------------------------------------------------ O2
@@ -708,7 +742,7 @@ def _virgin_case(h, M):
 
     def f(H, e, dt, K, Ge, G, tau):
         E = sym33(e)
-        with patched(M.mod, _compute_elastic_logarithmic_strain=lambda dg, st: E):
+        with patched(M.mod, _compute_elastic_logarithmic_strain=lambda dg, st: E), no_tensor_functions(M):
             mat = M.material(K, Ge, G, tau)
             st0 = mat.compute_initial_state()
             en = mat.compute_energy_density(H, st0, dt)
@@ -764,7 +798,9 @@ def o5(h):
         prove_lemma(h, k)
     for M in Ms:
         nb = M.nb
-        c = _virgin_case(h, M)
+        c = guarded_case(h, 'virgin[%s]' % M.kind, lambda: _virgin_case(h, M))
+        if c is None:
+            continue
 
         def spec_struct(i, o, nb=nb, c=c):
             t = _vir_terms(c, i, o, nb)
@@ -811,7 +847,9 @@ def o5m(h):
     h.bounds(BOUNDS, 'dispGrad: every real 3x3 matrix with det(I + dispGrad) > 0')
     h.assume_note('log(J) and J**(-2/3) in _eq_strain_energy are uninterpreted (they cancel: only congruence is used)')
     for M in Ms:  # three-branch monolithic forms: see DESIGNED_NOT_REGISTERED
-        c = _virgin_case(h, M)
+        c = guarded_case(h, 'virgin[%s]' % M.kind, lambda: _virgin_case(h, M))
+        if c is None:
+            continue
         c.prove('virgin[%s]' % M.kind, _spec_virgin_bounds(c, M.nb, '.monolithic'), denoms=False, cap=300, order=('core',))
 
 
@@ -835,7 +873,8 @@ def o6(h):
             def expm_stub(A):
                 seen.append(A)
                 return Xs[(len(seen) - 1) % Mo.nb]
-            with patched(Mo.mod, _compute_elastic_logarithmic_strain=log_stub_from_state, linalg=types.SimpleNamespace(expm=expm_stub)):
+            with no_tensor_functions(Mo, expm=False), patched(Mo.mod, _compute_elastic_logarithmic_strain=log_stub_from_state,
+                                                              linalg=types.SimpleNamespace(expm=expm_stub)):
                 mat = Mo.material(K, Ge, Gs, taus)
                 en = mat.compute_energy_density(H, st, dt)
                 D = mat.compute_material_qoi(H, st, dt)
@@ -854,7 +893,9 @@ def o6(h):
     ex = dict(H=onp.array([[.1, .02, 0.], [.03, -.05, .01], [0., .02, .04]]), state=onp.linspace(-.2, .3, 27) + onp.tile(onp.eye(3).ravel(), 3),
               X=onp.tile(onp.eye(3), (3, 1, 1)) + 0.01 * onp.arange(27).reshape(3, 3, 3), dt=0.1, **M.ex_moduli())
     smp = lambda rng: [rng.normal(size=(3, 3)) * 0.1, rng.normal(size=27), rng.normal(size=(3, 3, 3)), 10.0 ** rng.uniform(-2, 2)] + M.smp_moduli(rng)
-    c = Case(h, f, ex, sampler=smp, label='multi_vs_single')
+    c = guarded_case(h, 'multi_vs_single', lambda: Case(h, f, ex, sampler=smp, label='multi_vs_single'))
+    if c is None:
+        return
 
     via_expm = calls == [('multi', 3), ('single', 1), ('single', 1), ('single', 1)]
     h.fact('multi_vs_single.expm_called_once_per_branch', via_expm, 'calls of jax.scipy.linalg.expm by compute_state_new: %s (expected 3 / 1 / 1 / 1); '
@@ -990,3 +1031,136 @@ def o8(h):
                         ats.append(Eq(flat(matmul33(FvT, matmul33(A, Fv))), flat(matmul33(FT, F)), name='branch%d_FvT_logarg_Fv_is_FT_F' % n))
                 return asm, ats
             c.prove(tag, spec, denoms=True, order=('core', 'nlsat'))
+
+
+# ------------------------------------------------------------------------------------------ O9
+ISO_NOTE = ('matrix logarithm (TensorMath.log_sqrt_symm / log_symm) and expm are uninterpreted tensor functions per call, constrained '
+            'by congruence (equal arguments -> equal values) and, for the logarithm, the isotropy instance f(Q A Q^T) = Q f(A) Q^T for '
+            'the in-plane rotation Q of the query (DESIGN 2, library calls by contract); their values are symmetric resp. arbitrary 3x3')
+
+
+def prove_vs_real(c, name, spec, real_eval, pins=None, cap=150, order=('core', 'nlsat'), extra=()):
+    """symbolic side: the stubbed trace of case c; replay side: the UNSTUBBED real functions at the model's inputs
+    (real_eval(inputs) -> (assumptions_hold, atoms, info), atoms in the order of spec's). If a model does not reproduce or
+    the goal is inconclusive, the same goal is searched with pinned inputs (falsification aid only, see prove_or_search)."""
+    from .. import sym
+    assumes, atoms = spec(c.inp, c.out)
+    base = [tob(x) for x in assumes] + c.side(True) + list(extra)
+    for k, atom in enumerate(atoms):
+        def concrete(vals, k=k):
+            ok, catoms, info = real_eval(c.conc_inputs(vals))
+            return ok, catoms[k], info
+        qn = '%s.%s' % (name, atom.name)
+        rec = c.h.prove(qn, base, atom, inputs=c.inp, concrete=concrete, cap=cap, order=order)
+        if pins is not None and (c.h.replay is not None or (rec is not None and rec.get('status') in ('inconclusive', 'unreproduced'))):
+            c.h.prove(qn + '.guided_search', base + [tob(x) for x in pins(c.inp)], atom, inputs=c.inp, concrete=concrete, cap=30, order=('nlsat', 'core'))
+
+
+@obligation(P, 'O9.reported_dissipation_objective_and_nonnegative_for_rotated_F', cap=300)
+def o9(h):
+    """real compute_material_qoi on the real kinematics (virgin state), F and Q F with Q an in-plane rotation (c, s),
+    c^2 + s^2 = 1, F any 3x3 with det > 0: qoi(Q F) = qoi(F) (objectivity) and both >= 0; replayed on the unstubbed code"""
+    Ms = models()
+    _, _, TM = _mods()
+    _enc(h, *Ms)
+    for M in Ms:
+        h.encoded(M.mod._compute_elastic_logarithmic_strain)
+    h.bounds('dispGrad H: every real 3x3 with det(I + H) > 0; Q = in-plane rotation by any angle (c, s reals with c^2 + s^2 = 1); state = '
+             'compute_initial_state(); moduli, tau, dt > 0')
+    h.assume_note(ISO_NOTE)
+    h.outside('rotations about other axes and non-virgin states (objectivity there follows from the same congruence step; not encoded)')
+    for M in Ms:
+        nb = M.nb
+        NL, NX = 4 * nb, 2 * nb
+        info = {}
+
+        def rot(c_, s_):
+            return jnp.array([[1.0, 0, 0], [0, 1.0, 0], [0, 0, 0]]) * c_ + jnp.array([[0, -1.0, 0], [1.0, 0, 0], [0, 0, 0]]) * s_ + jnp.diag(jnp.array([0, 0, 1.0]))
+
+        def f(H, cs, L, X, dt, K, Ge, G, tau, M=M, nb=nb, NL=NL, NX=NX, info=info):
+            logs, exps = [], []
+
+            def log_stub(scale):
+                def stub(A):
+                    logs.append(A)
+                    return scale * sym33(L[len(logs) - 1])
+                return stub
+
+            def expm_stub(A):
+                exps.append(A)
+                return X[len(exps) - 1]
+            Q = rot(cs[0], cs[1])
+            with patched(TM, log_sqrt_symm=log_stub(1.0), log_symm=log_stub(2.0)), patched(M.mod, linalg=types.SimpleNamespace(expm=expm_stub)):
+                mat = M.material(K, Ge, G, tau)
+                st0 = mat.compute_initial_state()
+                D1 = mat.compute_material_qoi(H, st0, dt)
+                D2 = mat.compute_material_qoi(Q @ (H + jnp.eye(3)) - jnp.eye(3), st0, dt)
+            info['n'] = (len(logs), len(exps))
+            z = jnp.zeros((3, 3))
+            return dict(D1=D1, D2=D2, A=jnp.stack(logs + [z] * (NL - len(logs))), EA=jnp.stack(exps + [z] * (NX - len(exps))))
+        ex = dict(H=onp.array([[.1, .02, 0.], [.03, -.05, .01], [0., .02, .04]]), cs=onp.array([0.6, 0.8]), L=0.05 * onp.arange(6 * NL).reshape(NL, 6) / NL,
+                  X=onp.tile(onp.eye(3), (NX, 1, 1)), dt=0.1, **M.ex_moduli())
+
+        def smp(rng, NL=NL, NX=NX, M=M):
+            th = rng.uniform(0, 6.28)
+            return [rng.normal(size=(3, 3)) * 0.1, onp.array([onp.cos(th), onp.sin(th)]), rng.normal(size=(NL, 6)) * 0.2,
+                    rng.normal(size=(NX, 3, 3)), 10.0 ** rng.uniform(-2, 2)] + M.smp_moduli(rng)
+        c = Case(h, f, ex, sampler=smp, label='objectivity[%s]' % M.kind, validate=2)
+        nl, nx = info['n']
+        h.fact('qoi[%s].tensor_function_calls' % M.kind, True, 'two evaluations of compute_material_qoi call the matrix log %d times and expm %d times' % (nl, nx), nontrivial=False)
+
+        def spec(i, o, nl=nl, nx=nx, nb=nb):
+            H, c_, s_ = i['H'], i['cs'][0], i['cs'][1]
+            F = [[v_add(H[a][b], 1.0 if a == b else 0.0) for b in range(3)] for a in range(3)]
+            Q = [[c_, v_sub(0.0, s_), 0.0], [s_, c_, 0.0], [0.0, 0.0, 1.0]]
+            QT = [[Q[b][a] for b in range(3)] for a in range(3)]
+            asm = positive(i, nb) + [approx_eq(v_add(v_sq(c_), v_sq(s_)), 1.0), v_lt(0.0, det33(F))]
+            A = [[[o['A'][k][a][b] for b in range(3)] for a in range(3)] for k in range(nl)]
+            Ls = [mat6(i['L'][k]) for k in range(nl)]
+            eqm = lambda P_, R_: v_and(*[v_eq(x, y) for x, y in zip(flat(P_), flat(R_))])
+            for k in range(nl):
+                for j in range(nl):
+                    if k < j:
+                        asm.append(v_implies(eqm(A[k], A[j]), eqm(Ls[k], Ls[j])))
+                    if k != j:
+                        asm.append(v_implies(eqm(A[j], matmul33(Q, matmul33(A[k], QT))), eqm(Ls[j], matmul33(Q, matmul33(Ls[k], QT)))))
+            for k in range(nx):
+                for j in range(k + 1, nx):
+                    asm.append(v_implies(eqm(o['EA'][k], o['EA'][j]), eqm(i['X'][k], i['X'][j])))
+            D1, D2 = s0(o['D1']), s0(o['D2'])
+            return asm, [Eq(D1, D2, name='objective'), Le(0.0, D1, name='nonnegative'), Le(0.0, D2, name='nonnegative_for_rotated_F')]
+
+        def real_eval(ci, M=M, nb=nb):
+            H, (c_, s_), dt = ci['H'], ci['cs'], float(ci['dt'])
+            mat = M.material(float(ci['K']), float(ci['Ge']), [float(x) for x in ci['G']], [float(x) for x in ci['tau']])
+            st0 = mat.compute_initial_state()
+            Q = onp.array([[c_, -s_, 0.0], [s_, c_, 0.0], [0.0, 0.0, 1.0]])
+            F = H + onp.eye(3)
+            D1 = float(mat.compute_material_qoi(jnp.asarray(H), st0, dt))
+            D2 = float(mat.compute_material_qoi(jnp.asarray(Q @ F - onp.eye(3)), st0, dt))
+            ok = dt > 0 and all(x > 0 for x in ci['G']) and all(x > 0 for x in ci['tau']) and abs(c_ * c_ + s_ * s_ - 1.0) <= 1e-9 and onp.linalg.det(F) > 0
+            sc = abs(D1) + abs(D2)
+            return bool(ok), [Eq(D1, D2, name='objective', scale=sc), Le(0.0, D1, name='nonnegative', scale=sc), Le(0.0, D2, name='nonnegative_for_rotated_F', scale=sc)], \
+                dict(D_F=D1, D_QF=D2, note='unstubbed real functions (real log_sqrt_symm, expm, inv)')
+
+        def pins(i):  # isochoric-ish biaxial stretch, quarter turn (c, s) = (0, 1): exact rationals
+            Hp = [[0.3, 0.0, 0.0], [0.0, -0.2, 0.0], [0.0, 0.0, 0.0]]
+            return [v_eq(i['H'][a][b], Hp[a][b]) for a in range(3) for b in range(3)] + [v_eq(i['cs'][0], 0.0), v_eq(i['cs'][1], 1.0)] + unit_moduli(i)
+        # cut: which log arguments of the evaluation at Q F coincide with those at F (the step that uses c^2 + s^2 = 1); only the
+        # pairs the solver proves are used (a spatial quantity may legitimately rotate), each recorded as a goal of its own
+        from .. import sym as _sym
+        n1 = nl // 2
+        cuts = []
+        if nl == 2 * n1:
+            asm0 = [tob(x) for x in spec(c.inp, c.out)[0][:2 * nb + 3]]
+            for k in range(n1):
+                eqs = [toz(x) == toz(y) for x, y in zip(flat(c.out['A'][n1 + k]), flat(c.out['A'][k]))]
+                if c.h.replay is None and _sym.solve(asm0 + c.side(True) + [z3.Not(z3.And(*eqs))], 20, ('core', 'nlsat'))[0] != 'unsat':
+                    continue
+
+                def spec_cut(i, o, k=k, n1=n1, nb=nb):
+                    return spec(i, o)[0][:2 * nb + 3], Eq(flat(o['A'][n1 + k]), flat(o['A'][k]), name='cut.log_argument_%d_unchanged_by_rotation' % k)
+                c.prove('qoi[%s]' % M.kind, spec_cut)
+                # modus ponens with the congruence axiom of the log stub: equal arguments -> equal values
+                cuts += eqs + [toz(x) == toz(y) for x, y in zip(flat(c.inp['L'][n1 + k]), flat(c.inp['L'][k]))]
+        prove_vs_real(c, 'qoi[%s]' % M.kind, spec, real_eval, pins=pins, extra=cuts)
